@@ -33,6 +33,8 @@ for d in sorted(glob.glob(os.path.join(ROOT, "seeded", "C*-*"))):
         r = json.load(open(f))
         det[r["tier"]] = {"detected": r["detected"], "exit": r["exit"], "violations": r["violations"],
                           "concrete_replay": r["with_concrete_replay"], "patch_applies": r["patch_applies"], "wall_s": r["wall_s"]}
+    if os.path.exists(os.path.join(d, "SUPERSEDED.md")):
+        meta["superseded"] = open(os.path.join(d, "SUPERSEDED.md")).read().strip()
     if det:
         meta["detected_by_check"] = det
     json.dump(meta, open(mp, "w"), indent=1)
